@@ -79,7 +79,7 @@ def parse_lean_blocks(out: str) -> list[dict]:
     cur = None
     for line in out.splitlines():
         if line.startswith("mapping"):
-            cur = {"mapping": [], "chains": [], "wf": None}
+            cur = {"mapping": [], "chains": [], "wf": None, "repeated": None}
             for kv in line.split()[1:]:
                 k, v = kv.split("=")
                 cur["mapping"].append((unhx(k), unhx(v)))
@@ -88,6 +88,8 @@ def parse_lean_blocks(out: str) -> list[dict]:
             cur["chains"].append((unhx(name), 1 if pre == "-" else int(pre), pre))
         elif line.startswith("wf ") and cur is not None:
             cur["wf"] = line.split()[1] == "1"
+        elif line.startswith("repeated ") and cur is not None:
+            cur["repeated"] = int(line.split()[1])
         elif line == "done" and cur is not None:
             blocks.append(cur)
             cur = None
@@ -392,7 +394,8 @@ def synthetic_reaction(rng, canonical: bool = False, malformed: bool = False, ma
 # ----------------------------------------------------------------------------- rare but legitimate shapes (deterministic)
 
 
-def build_reaction(topo, spec: dict, canonical: bool, max_chains: int = 48, eta_none=(), initial_helicities=None):
+def build_reaction(topo, spec: dict, canonical: bool, max_chains: int = 48, eta_none=(), initial_helicities=None,
+                   edge_helicities=None):
     """A reaction on `topo` with particles `spec[edge] = (name, latex, spin2, parity)`: ALL valid helicity chains (both
     signs of every helicity), thinned evenly to `max_chains`; in the canonical formalism every parity-allowed LS
     combination (at most 3 per node, lowest L first, so explicit L = 0 occurs)."""
@@ -433,6 +436,8 @@ def build_reaction(topo, spec: dict, canonical: bool, max_chains: int = 48, eta_
         r = list(range(-spin2[e], spin2[e] + 1, 2))
         if e == initial and initial_helicities is not None:
             r = [h for h in r if h in initial_helicities]
+        if edge_helicities is not None and e in edge_helicities:  # e.g. a photon-like spin-1 state: (-2, 2)
+            r = [h for h in r if h in edge_helicities[e]]
         ranges.append(r)
     chains = []
     for combo in itertools.product(*ranges):
@@ -480,6 +485,254 @@ def shaped_reactions(big: bool = False) -> dict:
              1: ("s0", "s^{0}", 0, -1), 2: ("f12", "f", 1, 1), 3: ("t0", None, 0, 1)}, canonical=False, max_chains=32 if big else 12,
         initial_helicities=(2, 0))
     return out
+
+
+# ----------------------------------------------------------------------------- repeated two-body decays in ONE chain
+#
+# The class the streams above never reach: the same two-body decay (same particles; equal or reversed daughter
+# helicities, hence the same raw / partner coefficient suffix) at two or three nodes of one chain, e.g.
+# X -> R R -> (a b)(a b). There "product of eta over the flipped NODES" and "product over the distinct flipped
+# decays / suffixes / eta values" differ.
+
+
+def repeated_flipped_count(naming, transitions) -> int:
+    """On the REAL naming object: number of (chain, node) with the node mapped to a partner suffix while an earlier
+    mapped node of the same chain has the same raw suffix (counterpart of `repeatedFlipped` of the Lean model)."""
+    mapping = naming.parity_partner_coefficient_mapping
+    total = 0
+    for t in transitions:
+        seen = set()
+        for node_id in t.topology.nodes:
+            raw = naming.generate_two_body_decay_suffix(t, node_id)
+            if mapping.get(raw, raw) == raw:
+                continue
+            if raw in seen:
+                total += 1
+            seen.add(raw)
+    return total
+
+
+def repeated_decay_shapes(big: bool = False) -> dict:
+    """Deterministic reactions with repeated decays (keys `<base>.hel` / `<base>.can`: pairs for the two-formalism
+    oracle)."""
+    from qrules.topology import create_isobar_topologies
+
+    t4 = create_isobar_topologies(4)[1]           # -1 -> (4 -> 0 1) (5 -> 2 3)
+    t5 = create_isobar_topologies(5)[3]           # -1 -> (5 -> 0 (7 -> 3 4)) (6 -> 1 2)
+    out = {}
+    # X(0+) -> V V, V(1-) -> g p twice, g photon-like (helicity +-1 only), p pseudoscalar: eta = (+1; -1, -1);
+    # the second V has its children in the other edge order (p g): same suffix (children are sorted by name)
+    vv = {-1: ("X0", "X_{0}", 0, 1), 4: ("V1", "V", 2, -1), 5: ("V1", "V", 2, -1), 0: ("g1", "g", 2, -1),
+          1: ("p0", "p^{0}", 0, -1), 2: ("p0", "p^{0}", 0, -1), 3: ("g1", "g", 2, -1)}
+    photon = {0: (-2, 2), 3: (-2, 2)}
+    out["rep_vv.hel"] = build_reaction(t4, vv, canonical=False, max_chains=12, edge_helicities=photon)
+    out["rep_vv.can"] = build_reaction(t4, vv, canonical=True, max_chains=12, edge_helicities=photon)
+    # three flipped nodes with unlike eta: X(1+) -> V V has eta = -1 (J - s1 - s2 = -1), the two V -> g p have +1 here
+    # (V(1+)), a second resonance W(1-) -> g p with eta = -1 in the same channel: chains V V, V W, W W
+    for tag, par4, par5 in (("vv", 1, 1), ("vw", 1, -1)):
+        spec = {-1: ("X1", "X_{1}", 2, 1), 4: ("V1+" if par4 > 0 else "W1-", None, 2, par4),
+                5: ("V1+" if par5 > 0 else "W1-", None, 2, par5), 0: ("g1", "g", 2, -1), 1: ("p0", "p^{0}", 0, -1),
+                2: ("g1", "g", 2, -1), 3: ("p0", "p^{0}", 0, -1)}
+        out[f"rep_unlike_eta_{tag}.hel"] = build_reaction(
+            t4, spec, canonical=False, max_chains=28, initial_helicities=(0,), edge_helicities={0: (-2, 2), 2: (-2, 2)})
+    # five final states: the same decay N -> f s at two different depths, eta = (e0, e1, -1, -1) with e0 != e1
+    five = {-1: ("Y0", "Y_{0}", 0, -1), 5: ("M12", "M", 1, 1), 6: ("N12", "N^{*}", 1, -1), 0: ("s0", "s", 0, -1),
+            7: ("N12", "N^{*}", 1, -1), 1: ("f12", "f", 1, 1), 2: ("s0", "s", 0, -1), 3: ("f12", "f", 1, 1),
+            4: ("s0", "s", 0, -1)}
+    out["rep_two_depths.hel"] = build_reaction(t5, five, canonical=False, max_chains=16)
+    if big:
+        out["rep_two_depths.can"] = build_reaction(t5, five, canonical=True, max_chains=16)
+    return out
+
+
+def _subtree_shape(topo, e):
+    if e in topo.outgoing_edge_ids:
+        return ()
+    n = topo.edges[e].ending_node_id
+    return tuple(sorted(_subtree_shape(topo, c) for c in topo.get_edge_ids_outgoing_from_node(n)))
+
+
+def repeated_decay_reaction(rng, canonical: bool = False, max_chains: int | None = None):
+    """A random reaction (4-6 final states, one isobar topology) in which two or three disjoint subtrees of the
+    topology carry the SAME particles (twin subtrees: identical resonances decaying to identical final-state pairs,
+    children in either edge order), with helicity chains that reverse the daughter helicities at every subset of the
+    twin nodes. Spins <= 3/2 (finals) / <= 2, eta from the parities, photon-like spin-1 finals at random.
+
+    Returns (ReactionInfo, description) or (None, None)."""
+    from qrules.particle import Parity, Particle
+    from qrules.quantum_numbers import InteractionProperties
+    from qrules.topology import FrozenTransition, create_isobar_topologies
+    from qrules.transition import ReactionInfo, State
+
+    if max_chains is None:
+        max_chains = 12 if canonical else 24
+    n_fs = rng.choice([4, 4, 4, 5, 5, 6])
+    candidates = []
+    for topo in create_isobar_topologies(n_fs):
+        by_shape: dict = {}
+        for e in topo.intermediate_edge_ids:
+            by_shape.setdefault(_subtree_shape(topo, e), []).append(e)
+        groups = [g for g in by_shape.values() if len(g) >= 2]
+        if groups:
+            candidates.append((topo, groups))
+    topo, groups = rng.choice(candidates)
+    # disjointness: equal shapes of a tree are never nested, so the subtrees of one group are disjoint
+    group = sorted(rng.choice(groups))
+    k = 3 if len(group) >= 3 and rng.random() < 0.5 else 2
+    twins = rng.sample(group, k)
+    finals = sorted(topo.outgoing_edge_ids)
+    inters = sorted(topo.intermediate_edge_ids)
+    (initial,) = topo.incoming_edge_ids
+    edges = [initial, *inters, *finals]
+
+    def children(e):
+        return sorted(topo.get_edge_ids_outgoing_from_node(topo.edges[e].ending_node_id))
+
+    rep = {e: e for e in edges}
+
+    def pair(e1, e2):
+        rep[e2] = e1
+        if e1 in finals:
+            return
+        c1 = sorted(children(e1), key=lambda c: _subtree_shape(topo, c))
+        c2 = sorted(children(e2), key=lambda c: (_subtree_shape(topo, c), rng.random()))
+        for a, b in zip(c1, c2):
+            pair(a, b)
+
+    for other in twins[1:]:
+        pair(twins[0], other)
+    near_twin = rng.random() < 0.2  # neighbour: one final state of a twin is a DIFFERENT particle of the same spin
+    if near_twin:
+        e = rng.choice([e for e in finals if rep[e] != e])
+        near_edge, near_of = e, rep[e]
+        rep[e] = e
+    spin2: dict[int, int] = {}
+    for e in finals:
+        spin2[e] = rng.choice([0, 0, 1, 1, 2, 2, 3]) if rep[e] == e else None
+    if near_twin:
+        spin2[near_edge] = spin2[near_of] if spin2[near_of] is not None else spin2[near_edge]
+
+    def fill(e):
+        if spin2.get(e) is not None:
+            return spin2[e]
+        if rep[e] != e:
+            spin2[e] = fill(rep[e])
+            return spin2[e]
+        c1, c2 = children(e)
+        par = (fill(c1) + fill(c2)) % 2
+        spin2[e] = rng.choice([par, par, par + 2])
+        return spin2[e]
+
+    for e in edges:
+        fill(e)
+    if near_twin:
+        spin2[near_edge] = spin2[near_of]
+    names = rng.sample(_NAMES, len(edges))
+    particles = {}
+    for i, e in enumerate(edges):
+        if rep[e] != e:
+            continue
+        nm = names[i]
+        particles[e] = Particle(name=nm, pid=300 + i, latex=_latex(rng, nm, False), spin=Fraction(spin2[e], 2),
+                                mass=1.0 + 0.1 * i, parity=Parity(rng.choice([1, -1])))
+    for e in edges:
+        particles[e] = particles[rep[e]]
+    node_info = {}
+    for n in topo.nodes:
+        (pin,) = topo.get_edge_ids_ingoing_to_node(n)
+        c1, c2 = sorted(topo.get_edge_ids_outgoing_from_node(n))
+        pp = int(particles[pin].parity) * int(particles[c1].parity) * int(particles[c2].parity)
+        expo = (spin2[pin] - spin2[c1] - spin2[c2]) // 2
+        node_info[n] = {"pin": pin, "c": (c1, c2), "eta": float(pp * (-1) ** (expo % 2)), "pp": pp}
+    # eta of a node is a property of its particles: decide "parity violating" per decay, not per node
+    violating = {}
+    for n, info in node_info.items():
+        key = (particles[info["pin"]].name, tuple(sorted(particles[c].name for c in info["c"])))
+        if key not in violating:
+            violating[key] = rng.random() < 0.1
+        if violating[key]:
+            info["eta"] = None
+        c1, c2 = info["c"]
+        ls_opts = []
+        for s in range(abs(spin2[c1] - spin2[c2]), spin2[c1] + spin2[c2] + 1, 2):
+            for l2 in range(abs(spin2[info["pin"]] - s), spin2[info["pin"]] + s + 1, 2):
+                if l2 % 2 or (info["eta"] is not None and (-1) ** ((l2 // 2) % 2) != info["pp"]):
+                    continue
+                ls_opts.append((l2 // 2, Fraction(s, 2)))
+        info["ls"] = ls_opts or [(None, None)]
+    twin_nodes = sorted(n for n, info in node_info.items() if rep[info["pin"]] != info["pin"] or info["pin"] in twins)
+    photon_like = {e for e in finals if spin2[e] == 2 and rep[e] == e and rng.random() < 0.4}
+    ranges = {}
+    for e in edges:
+        r = list(range(-spin2[e], spin2[e] + 1, 2))
+        if rep[e] in photon_like:
+            r = [-2, 2]
+        ranges[e] = r
+
+    def valid(h):
+        return all(abs(h[i["c"][0]] - h[i["c"][1]]) <= spin2[i["pin"]] for i in node_info.values())
+
+    seen = set()
+    chains = []
+    n_bases = 0
+    for _ in range(200):
+        if len(chains) >= max_chains:
+            break
+        h = {e: rng.choice(ranges[e]) for e in edges}
+        if rng.random() < 0.75:  # equal helicities in the twins: equal suffixes under every naming flag
+            for e in edges:
+                h[e] = h[rep[e]]
+        if not valid(h):
+            continue
+        n_bases += 1
+        flip_sets = [()]
+        for n in twin_nodes[:4]:
+            flip_sets += [(*fs, n) for fs in flip_sets]
+        extra = [n for n in node_info if n not in twin_nodes]
+        if extra and rng.random() < 0.5:
+            x = rng.choice(extra)
+            flip_sets += [(*fs, x) for fs in rng.sample(flip_sets, min(3, len(flip_sets)))]
+        for fs in flip_sets:
+            # reversing BOTH daughter helicities of a node never invalidates a chain (|l1 - l2| is unchanged and
+            # the parent helicity of a node is not constrained by its daughters)
+            h2 = dict(h)
+            for n in fs:
+                for c in node_info[n]["c"]:
+                    h2[c] = -h2[c]
+            key = tuple(h2[e] for e in edges)
+            if key in seen or not valid(h2):
+                continue
+            seen.add(key)
+            chains.append(h2)
+    if len(chains) < 2:
+        return None, None
+    chains = chains[: max(max_chains, 2)]
+    rng.shuffle(chains)
+    two_ls_node = rng.choice(sorted(node_info))
+    transitions = []
+    for h in chains:
+        states = {e: State(particles[e], h[e] / 2) for e in edges}
+        if canonical:
+            # two LS combinations at ONE randomly chosen decay (twin nodes then carry equal or unequal LS), one elsewhere
+            ls_lists = [node_info[n]["ls"][: (2 if n == two_ls_node else 1)] for n in sorted(node_info)]
+            ls_products = list(itertools.product(*ls_lists))
+        else:
+            ls_products = [tuple((None, None) for _ in node_info)]
+        for lsp in ls_products:
+            interactions = {n: InteractionProperties(l_magnitude=l, s_magnitude=s_, parity_prefactor=node_info[n]["eta"])
+                            for n, (l, s_) in zip(sorted(node_info), lsp)}
+            transitions.append(FrozenTransition(topo, states, interactions))
+    if canonical and any(i.l_magnitude is None for t in transitions for i in t.interactions.values()):
+        return None, None
+    reaction = ReactionInfo(transitions, formalism="canonical-helicity" if canonical else "helicity")
+    desc = {
+        "topology": sorted((e, ed.originating_node_id, ed.ending_node_id) for e, ed in topo.edges.items()),
+        "particles": {e: (particles[e].name, particles[e].latex, spin2[e], int(particles[e].parity)) for e in edges},
+        "eta": {n: node_info[n]["eta"] for n in node_info},
+        "twin_subtrees": list(twins), "twin_nodes": twin_nodes, "near_twin": near_twin,
+        "n_transitions": len(transitions), "n_base_chains": n_bases, "formalism": reaction.formalism,
+    }
+    return reaction, desc
 
 
 # ----------------------------------------------------------------------------- hash seeds (fresh processes)
